@@ -1,5 +1,3 @@
-// `sdjwt_verif` is set only by the verification harness (`--cfg sdjwt_verif`), see the `verif_hooks` modules
-#![allow(unexpected_cfgs)]
 #[cfg(target_arch = "wasm32")]
 use serde::{Deserialize, Serialize};
 #[cfg(target_arch = "wasm32")]
@@ -206,11 +204,8 @@ pub use parser::parse_yaml;
 pub use validation::*;
 pub use verifier::*;
 
-/// Verification hooks (only with `--cfg sdjwt_verif`), see the `verif_hooks` modules of the source files.
+/// Verification hooks, compiled only with `--cfg sdjwt_verif` (set by the verification harness): crate-private
+/// functions made callable for function-level correspondence runs. They add no behaviour of their own.
 #[cfg(sdjwt_verif)]
-pub mod verif_hooks {
-    pub use crate::decoding::verif_hooks as decoding;
-    pub use crate::encoding::verif_hooks as encoding;
-    pub use crate::issuer::verif_hooks as issuer;
-    pub use crate::utils::verif_hooks as utils;
-}
+#[path = "verif_hooks.rs"]
+pub mod verif_hooks;
